@@ -106,7 +106,7 @@ func (c *Ctx) getSessionContract() {
 			map[string]func(paths.Node) bool{"SetSessionPresent(true)": present(true), "Session.Update": mUpd}},
 		{"clean(CleanSession=1)", Assume{aClean: true, aSess: false, "err:*": false},
 			map[string]func(paths.Node) bool{"SetSessionPresent(false)": present(false), "Manager.New": mNew, "Session.Init": mInit},
-			map[string]func(paths.Node) bool{"SetSessionPresent(true)": present(true), "Session.Update": mUpd, "service.sess = Manager.Get(..)": keepsStored}},
+			map[string]func(paths.Node) bool{"SetSessionPresent(true)": present(true), "Session.Update": mUpd, "keeps-what-Manager.Get-returned": keepsStored}},
 	}
 	for _, s := range scen {
 		for name, m := range s.must {
